@@ -1,9 +1,34 @@
-from ._tvprops import main_for, replay_for
+"""C17 - end-of-input handling: emitted end() proved per program against the abstract machine (csem+z3); that data patterns never
+consume end-of-input is the End clause of the regex contract (bounded-exact) plus the literal-match shape."""
+from .. import common, gen
+from ..common import Finding
+from . import _tvprops as P
+from . import _tvcommon as T
 
 
 def main():
-    return main_for("C17")
+    spec = P.SPECS["C17"]
+    rep, recs = T.run("C17", spec["families"], spec["level"], spec["text"], optsets=P.optsets_for("C17"), programs=P.programs_for("C17"), fns=P.CODEGEN_FNS)
+    # data patterns never match End (regexes incl. wildcard / inverted sets; literal matches list characters only)
+    from ..rtc import run as rrun, regex_contract
+    ps = gen.regex_programs(common.tier() == "thorough", common.seed())
+    outs = rrun.run(ps, [["-O1", "-feof-support"]], [regex_contract.install], time_limit=10)
+    n = 0
+    for o in outs:
+        if o["error"]:
+            rep.undecided_ob(f"C17/rtc/{o['prog']}", o["error"][-200:])
+            continue
+        n += sum(v for k, v in (o["evals"] or {}).items() if k == "RegexMatch.convert")
+        for f in o["fails"] or []:
+            if "end-of-input" in f["msg"]:
+                rep.failed_ob(Finding("C17", "C17/rtc/RegexMatch.convert/never-consumes-End", f"{o['prog']}|End", f"{o['prog']}: {f['msg']}",
+                                      replay={"program": o["prog"], "source": next(p["src"] for p in ps if p["name"] == o["prog"])}, replayed=True))
+                rep.obligations -= 1
+    rep.bounded_count("regex DFAs checked never to consume End (product states x symbols)", n)
+    rep.fn("RegexMatch._create_dfa_state (End routed to the error path)", "EndMatch.convert")
+    rep.coverage["bound"] = "per program; the End-exclusion of regexes is a run-time contract over the generated regex set (bounded)"
+    return rep.finish(spec["text"] + " Data patterns never consuming End: End clause of the RegexMatch.convert contract over the generated regex set (bounded-exact).", checker_cmd="./check C17")
 
 
 def replay(path):
-    return replay_for("C17", path)
+    return P.replay_for("C17", path)
